@@ -1013,6 +1013,9 @@ def run(ctx):
                     bursts.append(csc)
         bursts += [gen_burst_scn(rng, "b%d" % i) for i in range(120 if quick else 1500)]
         bursts += [gen_chan_scn_c14c(rng, "h%d" % i) for i in range(60 if quick else 800)]
+        # round s14d: failed {del topic} followed by member requests; one stalled session attached to 66-78 topics
+        bursts += [c14d.gen_fault_scn_c14d(rng, "x%d" % i) for i in range(40 if quick else 600)]
+        bursts += [c14d.gen_many_scn_c14d(rng, "y%d" % i) for i in range(6 if quick else 60)]
         seqs = [gen_seq_scn(rng, "s%d" % i) for i in range(150 if quick else 1500)]
     t0 = time.time()
     results, logs = run_driver(ctx, bursts + seqs)
